@@ -7,7 +7,6 @@ import (
 	"strings"
 
 	"github.com/brimdata/super"
-	"github.com/brimdata/super/compiler"
 	"github.com/brimdata/super/runtime"
 	"github.com/brimdata/super/zson"
 	"verifsim/kernel"
@@ -85,7 +84,7 @@ type c08Row struct {
 }
 
 func c08Query(e *Env, c *Client, src string, par int) ([]c08Row, error) {
-	comp := compiler.NewLakeCompiler(c.Root)
+	comp := c.Compiler()
 	seq, _, err := comp.Parse(src)
 	if err != nil {
 		return nil, err
